@@ -62,6 +62,21 @@ CORPUS = [
     {"label": "queue", "args": ["--on-busy-update=queue"], "child_script": "exit_after=600",
      "events": [{"k": "change", "at_ms": 100}, {"k": "change", "at_ms": 250}, {"k": "change", "at_ms": 400}], "wait_ms": 900,
      "mode": 1, "restart": False, "signal": None, "stop": None, "postpone": False, "eff": 1, "life": 600, "react": "exit:0"},
+    # queue: a change during run N and another during the queued run N+1: three runs
+    {"label": "queue", "args": ["--on-busy-update=queue"], "child_script": "exit_after=300",
+     "events": [{"k": "change", "at_ms": 100}, {"k": "change", "at_ms": 450}], "wait_ms": 900,
+     "mode": 1, "restart": False, "signal": None, "stop": None, "postpone": False, "eff": 1, "life": 300, "react": "exit:0"},
+    {"label": "queue", "args": ["--on-busy-update=queue", "--postpone"], "child_script": "exit_after=250",
+     "events": [{"k": "change", "at_ms": 60}, {"k": "change", "at_ms": 200}, {"k": "change", "at_ms": 460}, {"k": "change", "at_ms": 720}], "wait_ms": 900,
+     "mode": 1, "restart": False, "signal": None, "stop": None, "postpone": True, "eff": 1, "life": 250, "react": "exit:0"},
+    # restart: back-to-back changes, each restarts
+    {"label": "-r", "args": ["-r"], "child_script": "exit_after=5000,on_term=exit:0",
+     "events": [{"k": "change", "at_ms": 150}, {"k": "change", "at_ms": 400}, {"k": "change", "at_ms": 650}], "wait_ms": 400,
+     "mode": 0, "restart": True, "signal": None, "stop": None, "postpone": False, "eff": 2, "life": 5000, "react": "exit:0"},
+    # do-nothing then idle start
+    {"label": "default", "args": [], "child_script": "exit_after=300",
+     "events": [{"k": "change", "at_ms": 100}, {"k": "change", "at_ms": 500}], "wait_ms": 700,
+     "mode": 0, "restart": False, "signal": None, "stop": None, "postpone": False, "eff": 0, "life": 300, "react": "exit:0"},
 ]
 
 
@@ -190,8 +205,13 @@ class C05(Prop):
             cc["id"] = k
             cases.append(cc)
         cases += [gen_case(r, 100 + i, deep) for i in range(n)]
+        return confirm_realtime(lambda cs, procs: self.judge(cs, procs, c.rule), cases)
+
+    def judge(self, cases, procs, rule):
+        c = Corr()
+        c.rule = rule
         try:
-            obs = run_parallel(cases, "c05")
+            obs = run_parallel(cases, "c05", procs=procs)
         except RuntimeError as e:
             c.errors.append(str(e))
             return c
@@ -224,7 +244,7 @@ class C05(Prop):
             c.evaluations += 1
             seq = observed_string(case, items)
             want = expand_model(m)
-            brief = {"args": case["args"], "child": case["child_script"], "events": [e["at_ms"] for e in case["events"]]}
+            brief = {"id": case["id"], "args": case["args"], "child": case["child_script"], "events": [e["at_ms"] for e in case["events"]]}
             c.count("mode=" + case["label"])
             c.count("react=" + case["react"])
             busy_change = any(a.startswith("sig") or a == "chg" and i > 0 and "start" in want[:i] and want[:i].count("start") > want[:i].count("exit")
